@@ -80,6 +80,10 @@ def _file(ctx, case):
 
 
 def check_case(ctx, case):
+    if case.get("kind") == "suite":
+        from .. import suite_workload
+
+        return suite_workload.run_for(ctx)
     if case["kind"] == "file":
         return _file(ctx, case)
     if case["kind"] != "cfg":
@@ -132,6 +136,11 @@ def _s(cfg, v):
 
 
 def run(ctx):
+    from .. import suite_workload
+
+    os_ = __import__("os")
+    os_.makedirs(os_.path.join(__import__("vf.load").load.VERIF, ".work"), exist_ok=True)
+    suite_workload.run_for(ctx)
     for case in cases(ctx):
         if ctx.expired():
             ctx.count("stopped_by_time_budget")
